@@ -551,20 +551,25 @@ theorem resolveRegions_inv (s s1 : State) (owner : Path) (vis : Vis) (target : O
   unfold resolveRegions at h
   simp only [] at h
   split at h
-  · rename_i s1' vft' vregion hb
-    simp only [Prod.mk.injEq] at h
-    obtain ⟨rfl, h⟩ := h
-    refine ⟨vregion, ?_⟩
-    split at h
-    · rename_i placed' size' hr
+  · simp only [Prod.mk.injEq] at h; exact absurd h.2 (by simp)
+  · simp only [Prod.mk.injEq] at h; exact absurd h.2 (by simp)
+  · simp only [Prod.mk.injEq] at h; exact absurd h.2 (by simp)
+  · simp only [Prod.mk.injEq] at h; exact absurd h.2 (by simp)
+  · split at h
+    · rename_i s1' vft' vregion hb
+      simp only [Prod.mk.injEq] at h
+      obtain ⟨rfl, h⟩ := h
+      refine ⟨vregion, ?_⟩
       split at h
-      · rename_i regions' hn
-        cases h
-        exact ⟨hr, hn⟩
+      · rename_i placed' size' hr
+        split at h
+        · rename_i regions' hn
+          cases h
+          exact ⟨hr, hn⟩
+        · exact absurd h (cast_ne_ok _ _)
       · exact absurd h (cast_ne_ok _ _)
-    · exact absurd h (cast_ne_ok _ _)
-  · simp only [Prod.mk.injEq] at h
-    exact absurd h.2 (cast_ne_ok _ _)
+    · simp only [Prod.mk.injEq] at h
+      exact absurd h.2 (cast_ne_ok _ _)
 
 theorem buildType_inv (s s1 : State) (path : Path) (vis : Vis) (d : G.TypeDef) (r : Resolved)
     (h : buildType s path vis d = (s1, .ok r)) :
